@@ -520,4 +520,181 @@ theorem released_carrier_tags (info : Nat → Pipeline.Info) (server : Endpoint)
 
 end Carriers
 
+-- ------------------------------------------------------------------ the export reads `info` only at the packets' tags
+section InfoCongr
+variable (H : Crypto.Prims) (P : Cipher.Prims)
+open TLX.Lemmas.Pipeline TLX.Props.C01Pipeline
+
+theorem tlsRun_machine_congr {κ σ ο : Type} (M M' : TlsMachine κ σ ο) (o : Opts) (hf : M.feed = M'.feed)
+    (pkts : List Pkt) (hn : ∀ p ∈ pkts, M.new o p = M'.new o p) (ss : List (TlsSess σ)) :
+    tlsRun M o ss pkts = tlsRun M' o ss pkts := by
+  induction pkts generalizing ss with
+  | nil => rfl
+  | cons p ps ih =>
+    simp only [tlsRun, List.foldl_cons] at ih ⊢
+    have hh : tlsHandle M o ss p = tlsHandle M' o ss p := by
+      induction ss with
+      | nil => simp only [tlsHandle, tlsNew, hn p (by simp)]
+      | cons s rest ihs => simp only [tlsHandle, hf, ihs]
+    rw [hh]
+    exact ih (fun q hq => hn q (by simp [hq])) _
+
+theorem tlsConvs_info_congr (info info' : Nat → Pipeline.Info) (o : Opts) (xs : List (Item Keylog.Key))
+    (h : ∀ p ∈ tcpView o xs, info p.tag = info' p.tag) : tlsConvs H P info o xs = tlsConvs H P info' o xs := by
+  unfold tlsConvs
+  exact tlsRun_machine_congr (Pipeline.tlsMachine H P info) (Pipeline.tlsMachine H P info') o rfl _
+    (fun p hp => by simp only [Pipeline.tlsMachine, h p hp]) []
+
+theorem released_info_congr (info info' : Nat → Pipeline.Info) (server : Endpoint) (pkts : List Pkt)
+    (h : ∀ p ∈ pkts, info p.tag = info' p.tag) (R : Reassembly.St × Reassembly.St) :
+    released info server R pkts = released info' server R pkts := by
+  induction pkts generalizing R with
+  | nil => rfl
+  | cons p ps ih =>
+    have hp : reasmPkt info server R p = reasmPkt info' server R p := by simp only [reasmPkt, h p (by simp)]
+    simp only [released, hp]
+    rw [ih (fun q hq => h q (by simp [hq]))]
+
+theorem connOut_info_congr (info info' : Nat → Pipeline.Info) (c : Pipeline.Conn) (kl : List Keylog.Key)
+    (h : ∀ p ∈ c.pkts, info p.tag = info' p.tag) :
+    Pipeline.connOut H P info c kl = Pipeline.connOut H P info' c kl := by
+  rw [connOut_eq, connOut_eq]
+  have hr : connRecs info c = connRecs info' c := released_info_congr info info' c.server c.pkts h _
+  rw [hr]
+  congr 2
+  apply List.map_congr_left
+  intro e he
+  have horig := Props.C07.entry_origin (Pipeline.ops H P kl) c.opts.metadata (connRecs info' c) e he
+  simp only [toRec, TcpOut.Rec.mk.injEq, true_and, and_true]
+  apply List.map_congr_left
+  intro id hid
+  obtain ⟨q, hq, hqt, _⟩ := released_carrier_tags info' c.server c.pkts (e.record, e.fromServer) horig id hid
+  rw [← hqt, h q hq]
+
+theorem tlsFrames_info_congr (info info' : Nat → Pipeline.Info) (o : Opts) (fk : Option (List Keylog.Key))
+    (xs : List (Item Keylog.Key)) (h : ∀ p ∈ tcpView o xs, info p.tag = info' p.tag) :
+    tlsFrames H P info o fk xs = tlsFrames H P info' o fk xs := by
+  unfold tlsFrames
+  rw [tlsConvs_info_congr H P info info' o xs h]
+  apply List.map_congr_left
+  intro s hs
+  simp only [convFrames]
+  rw [connOut_info_congr H P info info' s.st _ (fun p hp => h p ((convOk_all H P info' o xs s hs).pkts p hp).1)]
+
+end InfoCongr
+
+-- ------------------------------------------------------------------ ingest of a cut container
+section IngestCut
+open TLX.Ingest
+
+theorem framePkt_tag (c : Bool) (tag us : Nat) (buf : Bytes) (p : Pkt) (i : Pipeline.Info)
+    (h : framePkt c tag us buf = .ok (p, i)) : p.tag = tag := by
+  unfold framePkt at h
+  split at h
+  · cases h
+  · simp only [Except.ok.injEq, Prod.mk.injEq] at h; rw [← h.1]; rfl
+  · split at h
+    · cases h
+    · simp only at h
+      split at h <;> (simp only [Except.ok.injEq, Prod.mk.injEq] at h; rw [← h.1]) <;> rfl
+
+/-- the read loop over the first `k` items the reader yields: the first `k` main-loop items (one per container item:
+    a frame or a DSB) and a prefix of the tag ↦ info table -/
+theorem go_take (hc : Keylog.HexClass) (c : Bool) (its : List Container.Item) :
+    ∀ (tag k : Nat) (X : List (Item Keylog.Key)) (IS : List (Nat × Pipeline.Info)),
+      go hc c tag its = .ok (X, IS) →
+      ∃ IS', go hc c tag (its.take k) = .ok (X.take k, IS') ∧ IS' <+: IS ∧
+        ∀ p, Item.frame p ∈ X.take k → ∃ i, (p.tag, i) ∈ IS' := by
+  induction its with
+  | nil =>
+    intro tag k X IS h
+    simp only [go, Except.ok.injEq, Prod.mk.injEq] at h
+    obtain ⟨rfl, rfl⟩ := h
+    exact ⟨[], by simp [go], List.prefix_refl _, by simp⟩
+  | cons it rest ih =>
+    intro tag k X IS h
+    cases k with
+    | zero => exact ⟨[], by simp [go], List.nil_prefix, by simp⟩
+    | succ k =>
+      cases it with
+      | dsb s =>
+        simp only [go] at h ⊢
+        cases hd : decodeAscii s with
+        | error e => rw [hd] at h; cases h
+        | ok str =>
+          rw [hd] at h
+          simp only at h ⊢
+          cases hg : go hc c (tag + 1) rest with
+          | error e => rw [hg] at h; cases h
+          | ok v =>
+            obtain ⟨xs, is⟩ := v
+            rw [hg] at h
+            simp only [Except.ok.injEq, Prod.mk.injEq] at h
+            obtain ⟨rfl, rfl⟩ := h
+            obtain ⟨IS', g1, g2, g3⟩ := ih (tag + 1) k xs is hg
+            refine ⟨IS', by simp only [List.take_succ_cons, go, hd, g1], g2, ?_⟩
+            intro p hp
+            simp only [List.take_succ_cons, List.mem_cons] at hp
+            rcases hp with hp | hp
+            · cases hp
+            · exact g3 p hp
+      | pkt t buf =>
+        simp only [go] at h ⊢
+        by_cases hm : isMinusOne t = true
+        · simp only [hm, if_true] at h ⊢
+          cases hd : decodeAscii buf with
+          | error e => rw [hd] at h; cases h
+          | ok str =>
+            rw [hd] at h
+            simp only at h ⊢
+            cases hg : go hc c (tag + 1) rest with
+            | error e => rw [hg] at h; cases h
+            | ok v =>
+              obtain ⟨xs, is⟩ := v
+              rw [hg] at h
+              simp only [Except.ok.injEq, Prod.mk.injEq] at h
+              obtain ⟨rfl, rfl⟩ := h
+              obtain ⟨IS', g1, g2, g3⟩ := ih (tag + 1) k xs is hg
+              refine ⟨IS', by simp only [List.take_succ_cons, go, hm, if_true, hd, g1], g2, ?_⟩
+              intro p hp
+              simp only [List.take_succ_cons, List.mem_cons] at hp
+              rcases hp with hp | hp
+              · cases hp
+              · exact g3 p hp
+        · simp only [hm, Bool.false_eq_true, if_false] at h ⊢
+          cases hf : framePkt c tag (Container.usOfFloat t.toFloat) buf with
+          | error e => rw [hf] at h; cases h
+          | ok v =>
+            obtain ⟨p0, i0⟩ := v
+            rw [hf] at h
+            simp only at h ⊢
+            cases hg : go hc c (tag + 1) rest with
+            | error e => rw [hg] at h; cases h
+            | ok v =>
+              obtain ⟨xs, is⟩ := v
+              rw [hg] at h
+              simp only [Except.ok.injEq, Prod.mk.injEq] at h
+              obtain ⟨rfl, rfl⟩ := h
+              obtain ⟨IS', g1, g2, g3⟩ := ih (tag + 1) k xs is hg
+              refine ⟨(tag, i0) :: IS', by simp only [List.take_succ_cons, go, hm, Bool.false_eq_true, if_false, hf, g1],
+                by simpa using g2, ?_⟩
+              intro p hp
+              simp only [List.take_succ_cons, List.mem_cons, Item.frame.injEq] at hp
+              rcases hp with rfl | hp
+              · exact ⟨i0, by rw [framePkt_tag c tag _ buf p i0 hf]; simp⟩
+              · obtain ⟨i, hi⟩ := g3 p hp
+                exact ⟨i, by simp [hi]⟩
+
+theorem lookup_prefix (IS' IS : List (Nat × Pipeline.Info)) (h : IS' <+: IS) (t : Nat) (i : Pipeline.Info)
+    (hm : (t, i) ∈ IS') : lookup IS' t = lookup IS t := by
+  obtain ⟨r, rfl⟩ := h
+  unfold lookup
+  rw [List.find?_append]
+  have : (IS'.find? (·.1 == t)).isSome := by
+    rw [List.find?_isSome]; exact ⟨(t, i), hm, by simp⟩
+  obtain ⟨v, hv⟩ := Option.isSome_iff_exists.mp this
+  rw [hv]; rfl
+
+end IngestCut
+
 end TLX.Lemmas.ExportProps
